@@ -822,6 +822,15 @@ theorem cmdRel (s : Sys) (i : Wid) (c : Cmd) (rest : List Cmd) (hnr : ∀ p fn, 
         fun a x' t hx hs => ⟨x', by simpa [Sys.setWk] using hx, hs, id⟩, (fun _ _ h => by cases h), (fun _ _ h => by cases h)⟩
     | some x0 =>
       simp only [hp]
+      by_cases hd : (Cfg.releaseDead && !x0.deliverable) = true
+      · -- variant `releaseDead`, a receiver that can never receive: only the wake-up
+        simp only [hd, if_true]
+        exact ⟨rfl, rfl, fun _ _ h => h, fun k hk => by simp [Sys.setWk, upd_other _ _ _ _ hk],
+          fun a t ha => by
+            simp only [Sys.setWk, upd_same]
+            unfold WorkerSt.wakeSelecting; split <;> exact ha,
+          fun a x' t hx hs => ⟨x', by simpa [Sys.setWk] using hx, hs, id⟩, (fun _ _ h => by cases h), (fun _ _ h => by cases h)⟩
+      simp only [hd, Bool.false_eq_true, if_false]
       refine ⟨rfl, rfl, fun _ _ h => h, fun k hk => by simp [Sys.setWk, upd_other _ _ _ _ hk], ?_, ?_,
         (fun _ _ h => by cases h), (fun _ _ h => by cases h)⟩
       · intro a t ha
@@ -1141,6 +1150,29 @@ theorem fold_notify_dom (cur : Pid) (r : Res) (l : List Pid) (w : WorkerSt) (b :
     ((l.foldl (fun acc a => acc.notifyResult a cur r) w).procs b).isSome = (w.procs b).isSome :=
   (SameProcs.foldl _ (fun w' a => SameProcs.notifyResult w' a cur r) l w).dom b
 
+/-- variant `releaseDead`: `release` touches the finished process only, and keeps its result -/
+theorem release_other (w : WorkerSt) (cur b : Pid) (hb : b ≠ cur) : (w.release cur).procs b = w.procs b := by
+  unfold WorkerSt.release; split
+  · unfold WorkerSt.modProc; split
+    · exact upd_other _ _ _ _ hb
+    · rfl
+  · rfl
+
+theorem release_cur_result (w : WorkerSt) (cur : Pid) (y' : Proc) (hy : (w.release cur).procs cur = some y') :
+    ∃ y, w.procs cur = some y ∧ y'.result = y.result := by
+  unfold WorkerSt.release at hy; split at hy
+  · unfold WorkerSt.modProc at hy; split at hy
+    · rename_i y hy0
+      simp only [upd_same, Option.some.injEq] at hy; subst hy
+      exact ⟨y, hy0, by unfold Proc.releaseDead; split <;> rfl⟩
+    · exact ⟨y', hy, rfl⟩
+  · exact ⟨y', hy, rfl⟩
+
+theorem release_awaiters (w : WorkerSt) (cur : Pid) : (w.release cur).awaitersFor = w.awaitersFor := by
+  unfold WorkerSt.release; split
+  · unfold WorkerSt.modProc; split <;> rfl
+  · rfl
+
 /-- after `finish`: the finished process has a result; every other record `Keeps` -/
 theorem finish_records (w : WorkerSt) (cur : Pid) (x : Proc) (ordQ : List Pid) (b : Pid) (y' : Proc) (t : Pid)
     (hy : (w.finish cur x ordQ).procs b = some y') (hs : y'.stillAwaiting t = true) :
@@ -1150,16 +1182,18 @@ theorem finish_records (w : WorkerSt) (cur : Pid) (x : Proc) (ordQ : List Pid) (
   by_cases hb : b = cur
   · subst hb
     exfalso
+    obtain ⟨y0, hy0, hres⟩ := release_cur_result _ b y' hy
     obtain ⟨y1, h1, h2⟩ := fold_notify_keeps b x.finalRes _
       { w with procs := upd w.procs b (some { x with result := some x.finalRes }) } b
       { x with result := some x.finalRes } (by simp)
-    rw [hy] at h1
+    rw [hy0] at h1
     simp only [Option.some.injEq] at h1
     subst h1
     have := h2.result
     simp only [Proc.stillAwaiting, Bool.and_eq_true, Option.isNone_iff_eq_none] at hs
-    rw [hs.1] at this; cases this
-  · refine ⟨hb, ?_⟩
+    rw [← hres, hs.1] at this; cases this
+  · rw [release_other _ _ _ hb] at hy
+    refine ⟨hb, ?_⟩
     cases hw : w.procs b with
     | none =>
       have := fold_notify_dom cur x.finalRes (orderBy ordQ (WorkerSt.localAwaiters
@@ -1179,7 +1213,7 @@ theorem finish_records (w : WorkerSt) (cur : Pid) (x : Proc) (ordQ : List Pid) (
 theorem finish_awaiters (w : WorkerSt) (cur : Pid) (x : Proc) (ordQ : List Pid) :
     (w.finish cur x ordQ).awaitersFor = w.awaitersFor := by
   unfold WorkerSt.finish
-  exact fold_notify_awaiters _ _ _ _
+  exact (release_awaiters _ _).trans (fold_notify_awaiters _ _ _ _)
 
 end QM.Sys
 
